@@ -36,6 +36,10 @@ def run(db, rep, tier):
     rep.rule("R6-always-a-payload", "a complete, contiguous fragment set always yields a payload layer: whatever the protocol number, "
                                     "allocate_pdu() falls back to RawPDU instead of returning null", 1)
     r6(db, rep)
+    rep.rule("R7-every-fragment", "add_fragment stores every fragment that is not a duplicate (the only return before the insertion is the "
+                                  "duplicate-offset one); IP::is_fragmented() is true exactly when the more-fragments bit or any of the 13 offset "
+                                  "bits is set", 2)
+    r7(db, rep)
     rep.rule("R4-accounting", "fragment insertion, byte accounting, ordered search and duplicate test go together", 4)
     proc = fn1(db, REASM + "::process")
     r1(db, rep, proc)
@@ -406,3 +410,83 @@ def r6(db, rep):
             rep.ok("R6-always-a-payload", key, facts.loc(af, r), "non-null on every path (RawPDU fallback)")
     if n < 1:
         rep.analysis_broken("allocate_pdu: no return after the contiguity loop found")
+
+
+def r7(db, rep):
+    from vlib import bitprov as bp
+    af = fn1(db, STREAM + "::add_fragment")
+    g = cfg.FnCFG(af)
+    ins = [n for n in calls_named(af, "insert", "fragments_")] + [n for n in calls_named(af, "push_back", "fragments_")]
+    key = "add_fragment:early-returns"
+    if not ins:
+        rep.violation("R7-every-fragment", key, facts.loc(af), "no insertion into fragments_ found")
+    else:
+        bad = None
+        for r in facts.fn_nodes(af):
+            if r["k"] != "ReturnStmt":
+                continue
+            if not g.reachable(g.pos(r), g.pos(ins[0])) and g.reached_from_entry_avoiding(g.pos(r), [g.pos(ins[0])]) is not None:
+                # a return taken instead of the insertion: only for a duplicate offset
+                fs_ = cond.guards_facts(g, g.pos(r))
+                dup = any(op == "==" and rr is not None and "offset" in facts.expr_str(l) and "offset" in facts.expr_str(rr) for op, l, rr in fs_)
+                if not dup:
+                    bad = r
+        if bad is not None:
+            rep.violation("R7-every-fragment", key, facts.loc(af, bad),
+                          "add_fragment can return without storing a fragment whose offset is new (%s): the datagram can never complete"
+                          % "; ".join("%s %s %s" % (facts.expr_str(l), op, facts.expr_str(rr) if rr is not None else "") for op, l, rr in cond.guards_facts(g, g.pos(bad)))[:160])
+        else:
+            rep.ok("R7-every-fragment", key, facts.loc(af, ins[0]), "every return before the insertion is the duplicate-offset one")
+    # is_fragmented as a bit function of the header
+    fs = [f for f in db.fns_named("Tins::IP::is_fragmented") if f.get("body")]
+    key = "IP::is_fragmented"
+    if not fs:
+        rep.analysis_broken("IP::is_fragmented vanished")
+        return
+    rec = "Tins::IP"
+    try:
+        m = bp.Machine(db)
+        this = m.new_region("this", "m")
+        thisloc = bp.Loc(this, 0, {"k": "rec", "name": rec, "size": db.records[rec]["size"]})
+        res = m.call(fs[0], thisloc, [])
+        bit = bp.Frame(m, fs[0], thisloc, 0).truth(res)
+        from rules.c15 import result_bits
+        sup_want = set()
+        for nm in ("fragment_offset", "flags"):
+            gs = [x for x in db.fns_named(rec + "::" + nm) if x.get("body") and not x["params"]]
+            m2 = bp.Machine(db)
+            t2 = m2.new_region("this", "m")
+            bits = result_bits(m2, m2.call(gs[0], bp.Loc(t2, 0, thisloc.t), []))
+            if nm == "flags":
+                # the more-fragments bit: enumerator MORE_FRAGMENTS of IP::Flags
+                en = db.enums.get("Tins::IP::Flags")
+                mf = [e["v"] for e in en["enumerators"] if e["name"] == "MORE_FRAGMENTS"][0]
+                bits = [b for i, b in enumerate(bits) if (mf >> i) & 1]
+            for b in bits:
+                bp.support(b, "m", sup_want)
+    except (bp.Unsupported, bp.Throw, KeyError, IndexError) as e:
+        rep.analysis_broken("IP::is_fragmented: outside the E-BITS language: %s" % e)
+        return
+    sup = set()
+    if not isinstance(bit, (bool, int)):
+        bp.support(bit, "m", sup)
+    bad = None
+    if sup != sup_want:
+        miss = sorted(sup_want - sup)
+        extra = sorted(sup - sup_want)
+        bad = ("is_fragmented() reads header bits %s; the more-fragments flag and the 13 offset bits are %s%s%s" %
+               (sorted(sup), sorted(sup_want), " - ignored: byte %d bit %d" % (miss[0] // 8, miss[0] % 8) if miss else "",
+                " - also reads byte %d bit %d" % (extra[0] // 8, extra[0] % 8) if extra else ""))
+    else:
+        from rules.c14 import _subst
+        for j in sorted(sup_want):
+            v = _subst(bit, lambda b, j=j: (1 if b[1] == j else 0) if b[0] == "m" else b)
+            if v != 1:
+                bad = "with only header bit %d set is_fragmented() is not true" % j
+                break
+        if bad is None and _subst(bit, lambda b: 0 if b[0] == "m" else b) != 0:
+            bad = "is_fragmented() is true for an unfragmented header"
+    if bad:
+        rep.violation("R7-every-fragment", key, facts.loc(fs[0]), bad + ": such fragments are treated as whole packets and the datagram never completes")
+    else:
+        rep.ok("R7-every-fragment", key, facts.loc(fs[0]), "true exactly when one of the %d bits (MF + offset) is set" % len(sup_want))
